@@ -17,6 +17,12 @@ def sig_of(path, direction):
 
 def run(ctx):
     _run(ctx)
+    ctx.delegate("C03", ["C03.accept"], "C01.accept",
+                 "what the writer may emit (empty parts, zero counts) is accepted back: validation errors are returned only for "
+                 "invalid records", floor=6)
+    ctx.delegate("C15", ["C15.R0", "C15.R2"], "C01.routes",
+                 "the same shapes on the sequential route also after random access on the same reader: random access starts with "
+                 "an absolute seek and leaves the source at the first record", floor=2)
     ctx.delegate("C09", ["C09.W5", "C09.ctor"], "C01.commit",
                  "same number of shapes read back: every record written is committed by the next finalize or drop, whatever "
                  "finalize calls came before (a new writer is dirty; every successful write leaves it dirty)", floor=3)
